@@ -485,6 +485,7 @@ func (db *SingleBucketBackend) PutObject(
 			return result, err
 		}
 	}
+	verifhook.At("fs.put.after-mkdir")
 	if err := db.fs.Rename(tmpFilePath, objectFilePath); err != nil {
 		db.metaStore.discardStagedMeta(metaPath)
 		removeEmptyDirs(db.fs, "", path.Dir(objectName))
@@ -561,6 +562,7 @@ func (db *SingleBucketBackend) deleteObjectLocked(bucketName, objectName string)
 	if err := db.fs.Remove(filepath.FromSlash(objectName)); err != nil && !isNotExist(err) {
 		return err
 	}
+	verifhook.At("fs.delete.before-prune")
 	removeEmptyDirs(db.fs, "", path.Dir(objectName))
 	verifhook.At("fs.delete.between")
 	if err := db.metaStore.deleteMeta(db.metaStore.metaPath(bucketName, objectName)); err != nil {
